@@ -39,7 +39,7 @@ def ev(e, env):
         bad(e, "unknown name %s" % e.id)
     if isinstance(e, ast.Tuple):
         return tuple(ev(x, env) for x in e.elts)
-    if isinstance(e, ast.Call) and ast.unparse(e.func) == "partial" and e.args and ast.unparse(e.args[0]) in ("signal.to_array", "to_array"):
+    if isinstance(e, ast.Call) and ast.unparse(e.func).split(".")[-1] == "partial" and e.args and ast.unparse(e.args[0]).split(".")[-1].lstrip("_") == "to_array":
         kws = {k.arg: ast.unparse(k.value) for k in e.keywords}
         if kws != {"sample_width": "sample_width", "channels": "channels"} or len(e.args) != 1:
             bad(e, "to_array must be bound to sample_width and channels")
@@ -163,6 +163,14 @@ def run(stmts, env):
         if isinstance(st, ast.Assign) and len(st.targets) == 1 and isinstance(st.targets[0], ast.Name):
             env = dict(env); env[st.targets[0].id] = ev(st.value, env)
             continue
+        if isinstance(st, ast.FunctionDef) and not st.decorator_list:
+            # a named inner function with one parameter and one return: the same thing as the lambda it replaces
+            body = [x for x in st.body if not (isinstance(x, ast.Expr) and isinstance(x.value, ast.Constant))]
+            if len(st.args.args) == 1 and len(body) == 1 and isinstance(body[0], ast.Return) and body[0].value is not None:
+                lam = ast.copy_location(ast.Lambda(args=st.args, body=body[0].value), st)
+                env = dict(env); env[st.name] = ev(lam, env)
+                continue
+            bad(st, "inner function %s is not a one-parameter single return" % st.name)
         if isinstance(st, ast.AugAssign) and isinstance(st.target, ast.Name) and isinstance(st.op, ast.Add):
             cur = env.get(st.target.id)
             add = ev(st.value, env)
@@ -207,8 +215,18 @@ def emit(repo):
     if params != ["sample_width", "channels", "selected"]:
         raise TranslationError("make_channel_selector signature changed: %r" % params)
 
+    consts = {}
+    for n in util.body:          # module-level literals (tuples of names hoisted out of the function)
+        if isinstance(n, ast.Assign) and len(n.targets) == 1 and isinstance(n.targets[0], ast.Name):
+            try:
+                consts[n.targets[0].id] = ast.literal_eval(n.value)
+            except Exception:
+                pass
+
     def case(value):
-        return run(list(fn.body), {"sample_width": Sym("sample_width"), "channels": Sym("channels"), "selected": value})
+        env = dict(consts)
+        env.update({"sample_width": Sym("sample_width"), "channels": Sym("channels"), "selected": value})
+        return run(list(fn.body), env)
     any_ = [case(None), case("any")]
     mix = [case("mix"), case("avg"), case("average")]
     badv = [case("zzz"), case(1.5), case("")]
